@@ -779,7 +779,10 @@ void UIVectorSet(uivector* d, size_t val)
 
 int intcmp(const void *v1, const void *v2)
 {
-  return (*(int *)v1 - *(int *)v2);
+  /* the elements are size_t: compare them as such (an int view truncates and the difference overflows) */
+  const size_t a = *(const size_t *)v1;
+  const size_t b = *(const size_t *)v2;
+  return (a > b) - (a < b);
 }
 
 void SortUIVector(uivector* d)
